@@ -183,6 +183,28 @@ def cotreeAssign (t0 : Tree) (x : List Bool) (h : Heap) : Outcome :=
     | (true, t', h2) => Outcome.ofHeap true t'.ok (cotDestroy t' h2)
     | (false, t', h2) => Outcome.ofHeap false t'.ok (cotDestroy t' h2)
 
+/-- `CO_Tree::insert_precise_aux`, leaf case, after fix_c14_cotree_insert_atomic: the element is
+built first; index and `size_` are updated only when the construction has succeeded (the
+rebalancing case builds the element aside before it moves anything, which is the same event
+order). -/
+def cotreeInsert (t : Tree) (h : Heap) : Outcome :=
+  match h.alloc with
+  | (none, h1) => Outcome.ofHeap true t.ok (cotDestroy t h1)
+  | (some b, h1) =>
+    let t' := { t with elems := t.elems ++ [b], size := t.size + 1 }
+    Outcome.ofHeap false t'.ok (cotDestroy t' h1)
+
+/-- Historical witness: `++size_` came before the construction, so a throwing copy left a tree
+whose size counts an element that does not exist (`compact`/`rebuild` then walk one element too
+far: the double frees and crashes observed under `Grid`, `Polyhedron`, `MIP_Problem`). -/
+def cotreeInsertAsWritten (t : Tree) (h : Heap) : Outcome :=
+  let t1 := { t with size := t.size + 1 }
+  match h.alloc with
+  | (none, h1) => Outcome.ofHeap true t1.ok (cotDestroy t1 h1)
+  | (some b, h1) =>
+    let t' := { t1 with elems := t.elems ++ [b] }
+    Outcome.ofHeap false t'.ok (cotDestroy t' h1)
+
 /-- The fill loop of `CO_Tree::CO_Tree(Iterator i, dimension_type n)`: `n` element constructions
 `new(&(*root)) data_type(*i)`; there is no try block around it. -/
 def fillLoop : Nat → List Nat → Heap → Bool × List Nat × Heap
@@ -562,6 +584,10 @@ def mipAdd (m cap pre k : Nat) : Outcome :=
 def mipCtorAsWritten (n pre k : Nat) : Outcome := Alloc.mipCtorAsWritten n (Heap.start pre k)
 def mipCopyAsWritten (n pre k : Nat) : Outcome := Alloc.mipCopyAsWritten n (Heap.start pre k)
 def mipCopy (n pre k : Nat) : Outcome := Alloc.mipCopy n (Heap.start pre k)
+def cotreeInsert (m pre k : Nat) : Outcome :=
+  let (t0, h) := buildTree m (Heap.start pre k); Alloc.cotreeInsert t0 h
+def cotreeInsertAsWritten (m pre k : Nat) : Outcome :=
+  let (t0, h) := buildTree m (Heap.start pre k); Alloc.cotreeInsertAsWritten t0 h
 def cotreeAssign (m : Nat) (x : List Bool) (pre k : Nat) : Outcome :=
   let (t0, h) := buildTree m (Heap.start pre k); Alloc.cotreeAssign t0 x h
 def denseAssignSparse (m0 cap m pre k : Nat) : Outcome :=
